@@ -52,12 +52,14 @@ int libwifi_get_rsn_info(struct libwifi_rsn_info *info, const unsigned char *tag
         return -EINVAL;
     }
     uint16_t suite_count = (uint16_t) (data[0] | (data[1] << 8));
+    data += sizeof(suite_count);
+    // The whole list must be present, although only the first LIBWIFI_MAX_CIPHER_SUITES suites are kept
+    if ((suite_count * sizeof(struct libwifi_cipher_suite)) > (size_t) (tag_end - data)) {
+        return -EINVAL;
+    }
+    const unsigned char *list_end = data + (suite_count * sizeof(struct libwifi_cipher_suite));
     if (suite_count > LIBWIFI_MAX_CIPHER_SUITES) {
         suite_count = LIBWIFI_MAX_CIPHER_SUITES;
-    }
-    data += sizeof(suite_count);
-    if ((((suite_count * sizeof(struct libwifi_cipher_suite)) + data)) > tag_end) {
-        return -EINVAL;
     }
     info->num_pairwise_cipher_suites = suite_count;
 
@@ -71,18 +73,21 @@ int libwifi_get_rsn_info(struct libwifi_rsn_info *info, const unsigned char *tag
         memcpy(&info->pairwise_cipher_suites[i], cur_cipher_suite, sizeof(struct libwifi_cipher_suite));
         data += sizeof(struct libwifi_cipher_suite);
     }
+    data = (unsigned char *) list_end;
 
     // Bounds check and handle the RSN Authentication Key Management Suites
     if ((data + sizeof(suite_count)) > tag_end) {
         return -EINVAL;
     }
     suite_count = (uint16_t) (data[0] | (data[1] << 8));
+    data += sizeof(suite_count);
+    // The whole list must be present, although only the first LIBWIFI_MAX_CIPHER_SUITES suites are kept
+    if ((suite_count * sizeof(struct libwifi_cipher_suite)) > (size_t) (tag_end - data)) {
+        return -EINVAL;
+    }
+    list_end = data + (suite_count * sizeof(struct libwifi_cipher_suite));
     if (suite_count > LIBWIFI_MAX_CIPHER_SUITES) {
         suite_count = LIBWIFI_MAX_CIPHER_SUITES;
-    }
-    data += sizeof(suite_count);
-    if ((((suite_count * sizeof(struct libwifi_cipher_suite)) + data)) > tag_end) {
-        return -EINVAL;
     }
     info->num_auth_key_mgmt_suites = suite_count;
 
@@ -95,6 +100,7 @@ int libwifi_get_rsn_info(struct libwifi_rsn_info *info, const unsigned char *tag
         memcpy(&info->auth_key_mgmt_suites[i], cur_cipher_suite, sizeof(struct libwifi_cipher_suite));
         data += sizeof(struct libwifi_cipher_suite);
     }
+    data = (unsigned char *) list_end;
 
     // The RSN Capabilities field is optional: take it only when both of its bytes are present
     if (data > tag_end) {
@@ -337,12 +343,14 @@ int libwifi_get_wpa_info(struct libwifi_wpa_info *info, const unsigned char *tag
         return -EINVAL;
     }
     uint16_t suite_count = (uint16_t) (data[0] | (data[1] << 8));
+    data += sizeof(suite_count);
+    // The whole list must be present, although only the first LIBWIFI_MAX_CIPHER_SUITES suites are kept
+    if ((suite_count * sizeof(struct libwifi_cipher_suite)) > (size_t) (tag_end - data)) {
+        return -EINVAL;
+    }
+    const unsigned char *list_end = data + (suite_count * sizeof(struct libwifi_cipher_suite));
     if (suite_count > LIBWIFI_MAX_CIPHER_SUITES) {
         suite_count = LIBWIFI_MAX_CIPHER_SUITES;
-    }
-    data += sizeof(suite_count);
-    if ((((suite_count * sizeof(struct libwifi_cipher_suite)) + data)) > tag_end) {
-        return -EINVAL;
     }
     info->num_unicast_cipher_suites = suite_count;
 
@@ -356,18 +364,21 @@ int libwifi_get_wpa_info(struct libwifi_wpa_info *info, const unsigned char *tag
         memcpy(&info->unicast_cipher_suites[i], cur_cipher_suite, sizeof(struct libwifi_cipher_suite));
         data += sizeof(struct libwifi_cipher_suite);
     }
+    data = (unsigned char *) list_end;
 
     // Bounds check and handle the WPA Authentication Key Management Suites
     if ((data + sizeof(suite_count)) > tag_end) {
         return -EINVAL;
     }
     suite_count = (uint16_t) (data[0] | (data[1] << 8));
+    data += sizeof(suite_count);
+    // The whole list must be present, although only the first LIBWIFI_MAX_CIPHER_SUITES suites are kept
+    if ((suite_count * sizeof(struct libwifi_cipher_suite)) > (size_t) (tag_end - data)) {
+        return -EINVAL;
+    }
+    list_end = data + (suite_count * sizeof(struct libwifi_cipher_suite));
     if (suite_count > LIBWIFI_MAX_CIPHER_SUITES) {
         suite_count = LIBWIFI_MAX_CIPHER_SUITES;
-    }
-    data += sizeof(suite_count);
-    if ((((suite_count * sizeof(struct libwifi_cipher_suite)) + data)) > tag_end) {
-        return -EINVAL;
     }
     info->num_auth_key_mgmt_suites = suite_count;
 
